@@ -575,13 +575,39 @@ class Normaliser(object):
         env = self.env_of(edge.src)
         if env and (mentions(edge.src.ast) & set(env)):
             expr = subst(edge.src.ast, env)
+            if isinstance(expr, ast.Call) and isinstance(
+                    expr.func, ast.Name) and expr.func.id == 'bool' and \
+                    len(expr.args) == 1 and not expr.keywords:
+                expr = expr.args[0]
             if isinstance(expr, (ast.BoolOp, ast.UnaryOp, ast.IfExp)):
                 # a local holding a compound condition: the outcome
-                # establishes a conjunction of atoms, or one of several
-                form = self._formula(expr, edge.kind == 'true')
-                for part in self._flatten(form):
-                    part.raw = atom
-                    out.append(part)
+                # establishes a conjunction of atoms, or one of several -
+                # spelled over the locals it was written with and over what
+                # those stand for
+                seen = set(a.key for a in out)
+                shallow = edge.src.ast
+                if isinstance(shallow, ast.Name) and shallow.id in env:
+                    shallow = env[shallow.id]
+                    if isinstance(shallow, ast.Call) and isinstance(
+                            shallow.func, ast.Name) and \
+                            shallow.func.id == 'bool' and \
+                            len(shallow.args) == 1:
+                        shallow = shallow.args[0]
+                for variant in (shallow, expr):
+                    if not isinstance(variant, (ast.BoolOp, ast.UnaryOp,
+                                                ast.IfExp)):
+                        continue
+                    saved, self.env = self.env, {}
+                    try:
+                        form = self._formula(variant, edge.kind == 'true')
+                    finally:
+                        self.env = saved
+                    for part in self._flatten(form):
+                        if part.key in seen:
+                            continue
+                        seen.add(part.key)
+                        part.raw = atom
+                        out.append(part)
                 return out
             twin = self.atom(expr)
             if edge.kind != 'true':
@@ -644,6 +670,10 @@ class Normaliser(object):
     def _formula(self, expr, pos):
         if isinstance(expr, ast.UnaryOp) and isinstance(expr.op, ast.Not):
             return self._formula(expr.operand, not pos)
+        if isinstance(expr, ast.Call) and isinstance(expr.func, ast.Name) \
+                and expr.func.id == 'bool' and len(expr.args) == 1 and \
+                not expr.keywords:
+            return self._formula(expr.args[0], pos)
         if isinstance(expr, ast.Constant):
             return ('and', []) if bool(expr.value) == pos else ('or', [])
         if isinstance(expr, ast.IfExp):
